@@ -46,6 +46,19 @@ def has_nary(t):
     return None
 
 
+def nary_kinds(t):
+    """the (function, call form) of every n-ary node of a tree"""
+    out = set()
+    if t["s"] == "N":
+        out.add((t["fn"], t["form"]))
+    for k in ("a", "l", "r"):
+        if k in t and isinstance(t[k], dict):
+            out |= nary_kinds(t[k])
+    for x in t.get("alts", []):
+        out |= nary_kinds(x)
+    return out
+
+
 def scenarios(nary):
     """(selector value, index of the alternative Python picks) for a tree with one n-ary node"""
     if nary is None:
@@ -53,6 +66,8 @@ def scenarios(nary):
     if nary["fn"] == "chooses":
         if nary["form"] == "kw":
             return [(b"k0", 0), (b"k1", 1)]
+        if nary["form"] in ("list", "pos"):
+            return [(0, 0), (1, 1), (-1, 1), (-2, 0)]      # a negative selector counts from the end, as Python indexing does
         return [(0, 0), (1, 1)]
     # if_true_then_else(condition, (value_if_true, value_if_false)): truthiness, not 0/1
     return [(0, 1), (1, 0), (4, 0), (-2, 0)]
@@ -120,6 +135,19 @@ def run(tier, seed):
         t = c["tree"]
         nary = has_nary(t)
         v.count_case(json.dumps(t, sort_keys=True), nontrivial=len(c["prog"]) >= 4)
+        if len(nary_kinds(t)) > 1:
+            # two n-ary nodes of different kinds share the one selector field: no selector value means the same alternative
+            # for both (a keyword mapping wants b"k0", a list wants 0; if_true_then_else picks by truth). The compiled
+            # program is still compared; the selector scenarios are run for trees whose n-ary nodes are of one kind.
+            try:
+                prog = [rd.instr_name(world, n, op, name) for (n, op, lvl, name) in deferred.compile_expr(world.build(t, None, rd.KSYM)).ops]
+            except Exception as e:
+                v.violation("C09_Result", "building the expression raised %s: %s" % (type(e).__name__, str(e)[:200]), {"tree": t})
+                continue
+            n_exec += 1
+            if prog != c["prog"]:
+                v.violation("C09_Program", "compiled program %r, specification %r" % (prog, c["prog"]), {"tree": t})
+            continue
         for selv, idx in scenarios(nary):
             env = {"F1": rd.Term("F1"), "F2": rd.Term("F2"), "S": rd.Term("S"), "FS": selv, "K": rd.KSYM}
             try:
@@ -159,6 +187,8 @@ def run(tier, seed):
     for c in [x for x in trees if len(x["prog"]) <= 7]:
         t = c["tree"]
         nary = has_nary(t)
+        if len(nary_kinds(t)) > 1:
+            continue
         for sm in subst[: (4 if quick else len(subst))] if nary else subst:
             if n_ops(c) > 1 and (set(sm.values()) & {"pow", "lshift"}):
                 continue      # nested powers / shifts of the operand samples are astronomically large numbers
@@ -177,6 +207,28 @@ def run(tier, seed):
                     if not ok:
                         v.violation("C09_Concrete", "deferred %r, eager Python %r (F1=%r F2=%r selector=%r ops=%r)" % (
                             got, exp, a, b, env["FS"], sm), {"tree": t, "ops": sm, "env": [a, b]})
+    # (ii') expressions over the same fields that differ only in a constant, compiled one after the other in this process
+    # (constants whose hashes coincide, like -1 and -2, included): each keeps its own meaning
+    def has_k(t):
+        return (t["s"] == "L" and t["leaf"] == "K") or any(has_k(t[k]) for k in ("a", "l", "r") if isinstance(t.get(k), dict)) \
+            or any(has_k(x) for x in t.get("alts", []))
+    for c in [x for x in trees if len(x["prog"]) <= 5 and has_k(x["tree"]) and len(nary_kinds(x["tree"])) <= 1]:
+        t = c["tree"]
+        nary = has_nary(t)
+        for sm in subst[:2]:
+            for kc in (-1, -2, 7):
+                try:
+                    fn = deferred.compile_expr_into_callable(world.build(t, sm, kc))
+                except Exception as e:
+                    v.violation("C09_Result", "building raised %s" % type(e).__name__, {"tree": t, "ops": sm, "K": kc})
+                    continue
+                for selv, idx in scenarios(nary)[:2]:
+                    env = {"F1": 5, "F2": 3, "S": b"\x05\x06\x07\x08", "FS": selv, "K": kc}
+                    ok, got, exp = same_outcome(lambda: fn(rd.pkt_for(env)), lambda: world.eager(t, env, sm))
+                    conc += 1
+                    if not ok:
+                        v.violation("C09_Concrete", "deferred %r, eager Python %r (constant %r, F1=5 F2=3 selector=%r ops=%r)" % (
+                            got, exp, kc, env["FS"], sm), {"tree": t, "ops": sm, "K": kc})
     v.cov["concrete_evaluations"] = conc
     v.cov["traces_validated_against_impl"] += conc
     # (iii) code -> spec: random larger trees, recorded and validated by TLC
